@@ -40,9 +40,9 @@ func init() {
 				Procs:    8,
 				Rule: "case = one concurrent run on one cache (LRU store behind a serialisation-checking proxy; 3-5 keys so that at most 5 heap entries exist and finding F1 cannot occur; limit 2-4 with unit sizes or limit 4-8 with sizes 0-3). " +
 					"(a) linearizability cases: 2-4 goroutines x 4-8 ops of Has/Get/Put/Remove/Len/Size/Clear, call/return stamped from one atomic counter at the client boundary, unique value id per Put, checked with porcupine against the reference LRU (no partitioning: eviction/Len/Size/Clear couple the keys), then a final Clear and the exactly-once accounting of the eviction log; " +
-					"(b) stress cases: 2-8 goroutines x 150-400 ops with goroutine-local results only (no harness synchronisation that could hide a race), an observer goroutine probing Size() and the accounting hook, run under the race detector and plain. (c) large-cache cases: a cache of 257..4097 unit entries is cleared while 2-4 observers call Len/Size (and optionally one Put races): every observation must be explained by Clear being one atomic step, and every entry must be reported evicted exactly once. GOMAXPROCS in {1,2,4,16} by block; random yields before calls and inside the proxy/size function/eviction callback. " +
+					"(b) stress cases: 2-8 goroutines x 150-400 ops with goroutine-local results only (no harness synchronisation that could hide a race), an observer goroutine probing Size() and the accounting hook, run under the race detector and plain. (c) large-cache cases: a cache of 257..4097 unit entries is cleared while 2-4 observers call Len/Size (and optionally one Put races): every observation must be explained by Clear being one atomic step, and every entry must be reported evicted exactly once. (d) high-rate invariant cases without recording: a key that is only ever replaced must always be reported present; after a goroutine's own Clear its private key must be absent. GOMAXPROCS in {1,2,4,16} by block; random yields before calls and inside the proxy/size function/eviction callback. " +
 					"distinct = hash(per-client op lists, set of overlapping op pairs) = distinct interleavings observed; non-trivial = at least one pair of conflicting operations (same key, or one of them Len/Size/Clear/evicting Put) overlapped in real time",
-				Required:     []string{"lin_histories", "lin_overlapping_conflicting_pairs", "lin_histories_with_eviction_and_overlap", "stress_rounds", "stress_ops", "store_proxy_calls", "observer_probes", "evictions_logged", "porcupine_ok", "large_clear_cases", "large_clear_observations"},
+				Required:     []string{"lin_histories", "lin_overlapping_conflicting_pairs", "lin_histories_with_eviction_and_overlap", "stress_rounds", "stress_ops", "store_proxy_calls", "observer_probes", "evictions_logged", "porcupine_ok", "large_clear_cases", "large_clear_observations", "invariant_cases", "invariant_ops"},
 				Assumptions:  []string{"sequential specification = reference LRU of C08; key space <= 5 so that the heap never has more than 5 entries and known finding F1/F2 cannot influence results", "the race detector only sees accesses that actually overlapped without an intervening happens-before edge", "porcupine v1.3.0 is trusted as the linearizability decision procedure (60 s timeout => inconclusive)"},
 				CoverPkgs:    []string{"github.com/creachadair/mds/cache"},
 				CoverAnchors: []string{"cache/cache.go"},
@@ -767,6 +767,86 @@ func c09clearCase(c *fw.Ctx, r *rand.Rand) {
 	}
 }
 
+// --- high-rate invariants (no recording, millions of operations) -------------
+
+// c09invariantCase runs goroutines that each own a private key of a shared
+// cache and check facts that follow from every sequential order whatever the
+// other goroutines do:
+//   - stable key: a key that is only ever Put (never removed, evicted or
+//     cleared) must be reported present by every Has/Get after its first Put
+//     returned, also while another Put replaces its value;
+//   - own Clear: after a goroutine's own Clear returned, a key that only this
+//     goroutine writes must be absent until it puts it again.
+func c09invariantCase(c *fw.Ctx, r *rand.Rand) {
+	mode := r.IntN(2)
+	ng := 2 + r.IntN(5)
+	iters := 2000 + r.IntN(c.Pick(3000, 30000))
+	// roomy limit: nothing is ever evicted for lack of space
+	rig := newC09rig(1<<20, r.IntN(2) == 0, r.Uint64(), r.IntN(4) == 0, false)
+	var bad atomic.Value
+	var wg sync.WaitGroup
+	start := make(chan struct{})
+	if mode == 0 {
+		// one writer per key replacing its value over and over; readers probe the keys
+		keys := 1 + r.IntN(3)
+		for k := 0; k < keys; k++ {
+			rig.ch.Put(k, CVal{ID: 1, Sz: 1})
+		}
+		for g := 0; g < ng; g++ {
+			wg.Add(1)
+			go func(g int) {
+				defer wg.Done()
+				<-start
+				for i := 0; i < iters && bad.Load() == nil; i++ {
+					k := (g + i) % keys
+					if g < keys {
+						rig.ch.Put(g, CVal{ID: i + 2, Sz: 1}) // replaces the sole value of key g
+					}
+					if i%2 == 0 {
+						if !rig.ch.Has(k) {
+							bad.Store(fmt.Sprintf("Has(%d) reported absent although key %d is only ever Put (replaced), never removed", k, k))
+						}
+					} else if _, ok := rig.ch.Get(k); !ok {
+						bad.Store(fmt.Sprintf("Get(%d) reported absent although key %d is only ever Put (replaced), never removed", k, k))
+					}
+					if i%64 == 0 {
+						c.Step()
+					}
+				}
+			}(g)
+		}
+	} else {
+		// every goroutine: Put(own key); Clear(); own key must be gone
+		for g := 0; g < ng; g++ {
+			wg.Add(1)
+			go func(g int) {
+				defer wg.Done()
+				<-start
+				for i := 0; i < iters/4 && bad.Load() == nil; i++ {
+					rig.ch.Put(1000+g, CVal{ID: i + 1, Sz: 1})
+					rig.ch.Clear()
+					if rig.ch.Has(1000 + g) {
+						bad.Store(fmt.Sprintf("goroutine %d: Put(own key); Clear(); Has(own key) = true, although only this goroutine ever puts that key", g))
+					}
+					if i%64 == 0 {
+						c.Step()
+					}
+				}
+			}(g)
+		}
+	}
+	close(start)
+	wg.Wait()
+	c.Add("invariant_cases", 1)
+	c.Add("invariant_ops", int64(ng*iters))
+	if v := bad.Load(); v != nil {
+		c.Fail(map[string]any{"mode": []string{"stable key under replacement", "own key gone after own Clear"}[mode], "goroutines": ng, "gomaxprocs": runtime.GOMAXPROCS(0)}, "%s", v)
+	}
+	if n := rig.proxy.overlap.Load(); n > 0 {
+		c.Fail(map[string]any{"mode": mode}, "Store methods were in flight concurrently %d time(s)", n)
+	}
+}
+
 func runC09(c *fw.Ctx) {
 	procs := []int{1, 2, 4, 16}[c.Block%4]
 	old := runtime.GOMAXPROCS(procs)
@@ -809,6 +889,22 @@ func runC09(c *fw.Ctx) {
 			ok, pv, stack := fw.Try(func() { c09clearCase(c, r) })
 			if !ok {
 				c.FailKind("panic", map[string]any{"phase": "large-cache Clear case"}, "panic: %v\n%s", pv, stack)
+			}
+		}
+	}
+	ninv := c.Pick(12, 400)
+	for i := 0; i < ninv; i++ {
+		if !c.Begin(1<<22 + i) {
+			continue
+		}
+		for rep := 0; rep < min(reps, 30) && !c.Stopped(); rep++ {
+			r := c.Rng()
+			if rep > 0 {
+				r = rand.New(rand.NewPCG(uint64(rep), uint64(i)))
+			}
+			ok, pv, stack := fw.Try(func() { c09invariantCase(c, r) })
+			if !ok {
+				c.FailKind("panic", map[string]any{"phase": "invariant case"}, "panic: %v\n%s", pv, stack)
 			}
 		}
 	}
